@@ -250,3 +250,42 @@ def pixel_coordinates(S):
         for j in range(3):
             got = img.sel(x=i * 0.1, y=j * 0.25, method='nearest').values.reshape(-1)[0]
             S.claim_eq(f'value_at[{i},{j}]', got, vals[i, j])
+
+
+@obligation('C16.load_average.refimg', functions=LA + [MD + 'copy_metadata'],
+            stubs=['holopy.core.io.io.load_image := stub returning the symbolic images'], timeout_s=120, nvalid=2,
+            bounds='2 files with 3x4 symbolic positive images, anisotropic spacing (0.1, 0.25), cropped to a 2x2 '
+                   'reference sub-image with its own metadata: mean values are those of the selected pixels, '
+                   'coordinates and metadata come from the reference image')
+def load_average_refimg(S):
+    _setup(S)
+    sp = (0.1, 0.25)
+    imgs = {}
+    vals = {}
+    for k in range(2):
+        im, v = _img(S, f'g{k}_', (3, 4), spacing=sp)
+        for x in v.reshape(-1):
+            S.assume(x > 0)
+        imgs[f'f{k}.tif'] = im
+        vals[k] = v
+
+    def fake_load_image(path, spacing=None, channel=None, **kw):
+        return imgs[path].copy()
+    S.patch(io_mod, 'load_image', fake_load_image, both=True)
+    full = data_grid(np.zeros((3, 4)), spacing=sp, medium_index=1.33, illum_wavelen=0.66,
+                     illum_polarization=(1, 0))
+    ref = full.isel(x=slice(1, 3), y=slice(2, 4))
+    out = io_mod.load_average(['f0.tif', 'f1.tif'], refimg=ref)
+    S.observe('mean', out.values)
+    S.claim('shape', out.sizes['x'] == 2 and out.sizes['y'] == 2)
+    batch = (vals[0] + vals[1]) / 2
+    S.claim_eq('values_are_selected_pixels', out.values.reshape(2, 2), batch[1:3, 2:4])
+    S.claim('coords_x', np.allclose(out.x.values, ref.x.values))
+    S.claim('coords_y', np.allclose(out.y.values, ref.y.values))
+    S.claim('metadata_from_refimg', out.attrs.get('medium_index') == 1.33 and out.attrs.get('illum_wavelen') == 0.66)
+    # noise = mean over the selected pixels of std/mean
+    var = ((vals[0] - batch) ** 2 + (vals[1] - batch) ** 2) / 2
+    ratios = (np.sqrt(var) / batch)[1:3, 2:4]
+    nz = out.attrs['noise_sd']
+    nz = nz.item() if hasattr(nz, 'item') else nz
+    S.claim_eq('noise_over_selected_pixels', nz, sum(ratios.reshape(-1)) / 4)
